@@ -106,9 +106,9 @@ pub fn run_all(out: &str, seed: u64, profile: &str, thorough: bool) {
     let mut blocks: Vec<(usize, usize)> = vec![(1, 1), (2, 3), (5, 7), (10, 4), (13, 64), (19, 65), (26, 1), (31, 33), (49, 8), (60, 16),
                                                (101, 5), (250, 3), (257, 9), (1000, 2)];
     if thorough {
-        blocks.extend([(3, 129), (7, 255), (40, 13), (75, 31), (127, 2), (500, 17), (2000, 4), (5000, 1)]);
+        blocks.extend([(3, 129), (7, 255), (40, 13), (75, 31), (127, 2), (500, 17)]);
         if profile.starts_with("release") {
-            blocks.extend([(12000, 1), (20000, 1)]);
+            blocks.extend([(2000, 4), (5000, 1), (12000, 1), (20000, 1)]);
         }
     } else if profile.starts_with("release") {
         // one block whose sparse tail grows past two words per row (dense columns cross 128); builds without debug
